@@ -32,10 +32,10 @@ PROP = dict(
     ],
     rule=("call trees on the real interpreter under vmtrace's single-step tracer: chains of up to 4 contracts plus self-recursion through Call.a (depth 1..30), "
           "one or two calls per activation, coins and gas forwarded ($cgas, half, all, fixed), RET of a register / of $hp, RETD of lengths 0..1000 from stack, "
-          "heap and tx data, callee ALOC 0..4096, CFS/CFE, PSH/POP, LDC in callees, random 64-bit contents in the program registers, loads through the "
+          "heap and tx data, callee ALOC 0..4096, CFS/CFE, PSH/POP, LDC in callees, random 64-bit contents in the program registers, caller $sp made unaligned right before the CALL (CFEI/CFE by 1..17, 1023, 4097: every residue mod 8 at every depth bucket, the bytes just below $sp filled with a non-zero pattern), inner calls forwarding 0 coins from frames whose own $bal is non-zero, loads through the "
           "returned heap pointer after the return; plus vmtrace grammar programs with recursion. Coq checker: model registers vs all 64 observed registers at "
           "every CALL and returning RET/RETD, model frame bytes vs the 600 bytes in VM memory, depth bookkeeping, no changed byte in [vm_hi, $sp of any "
-          "pending caller); oracle: the property text on registers / a memory snapshot / depth / callee entry state / loads equal to the memory image; "
+          "pending caller); oracle: the property text on registers / a memory snapshot taken BEFORE the CALL step (so the CALL's own frame write is covered, down to the last byte below $sp) / depth / callee entry state (fp' = caller sp exactly, is = pc = sp + 600, bal = forwarded coins, ...; classes call-frame-not-at-caller-sp, caller-stack-changed-across-call, callee-bal-not-forwarded-amount, ...) / loads equal to the memory image; "
           "distinct = distinct call/return/depth/RETD-length sequence; non-trivial = at least one completed call-return pair"),
     level_text=("Machine-checked proof (Coq) over an abstract call-frame machine mirroring prepare_call / return_from_context: for every state satisfying the "
                 "layout invariant, CALL followed by ANY callee execution above the caller's depth (arbitrary register changes, owned writes, stack/heap growth, "
